@@ -613,12 +613,12 @@ Definition array_method (h : heap) (l : nat) (name : bytes) (args : list val) : 
       match args with [v] => Ok (VNil, hset h l (OArr (items ++ [v]))) | _ => Panic end
     else if beqb name (B "pop") then
       match rev items with
-      | [] => Panic
+      | [] => Ok (VNil, h)
       | x :: r => Ok (box x, hset h l (OArr (rev r)))
       end
     else if beqb name (B "shift") then
       match items with
-      | [] => Unmod                                  (* nil Object converted to an empty Map *)
+      | [] => Ok (VNil, h)                           (* nil Object: converted to Nil *)
       | x :: r => Ok (box x, hset h l (OArr r))
       end
     else if beqb name (B "unshift") then
